@@ -80,35 +80,53 @@ macro_rules! c05_body {
                 model: init,
                 d,
             };
+            // (struct literal: the constructor draws its default seed from rand::rng(), which Kani cannot compile; this module is
+            // behind the crate feature `gibbs` so that a tree on which the literal no longer compiles only loses these harnesses)
             let mut chain = GibbsMarkovChain { target: cond, current_state: state, seed: 0, rng: SmallRng::from_seed([7u8; 32]) };
-            let ret_ok = {
-                let r = chain.step();
-                r.len() == d
-            };
-            let c = &chain.target;
-            chk!(src, ret_ok && chain.current_state.len() == d, "the state keeps its length");
-            chk!(src, c.calls == d, "the conditional is asked exactly once per coordinate");
-            chk!(src, !c.bad_index, "only coordinates of the state are asked for");
-            let mut each_once = true;
-            let mut i = 0;
-            while i < d {
-                if c.asked[i] != 1 {
-                    each_once = false;
+            // two consecutive sweeps: whatever the first one leaves behind must not change what the second one does
+            let mut sweep = 0;
+            while sweep < 2 {
+                if sweep == 1 {
+                    let mut answers2: [$S; MAXD] = [$zero; MAXD];
+                    let mut i = 0;
+                    while i < $dmax {
+                        answers2[i] = src.$anys();
+                        i += 1;
+                    }
+                    chain.target.answers = answers2;
+                    chain.target.calls = 0;
+                    chain.target.asked = [0; MAXD];
                 }
-                i += 1;
-            }
-            chk!(src, each_once, "every coordinate is refreshed exactly once");
-            chk!(src, c.given_len_ok && c.given_ok, "each request passes the current state with all earlier answers already written");
-            let mut fin_ok = chain.current_state.len() == d;
-            let mut i = 0;
-            while i < d && fin_ok {
-                if !<$S as BitEq>::biteq(chain.current_state[i], c.model[i]) {
-                    fin_ok = false;
+                let ret_ok = {
+                    let r = chain.step();
+                    r.len() == d
+                };
+                let c = &chain.target;
+                chk!(src, ret_ok && chain.current_state.len() == d, "the state keeps its length");
+                chk!(src, c.calls == d, "the conditional is asked exactly once per coordinate");
+                chk!(src, !c.bad_index, "only coordinates of the state are asked for");
+                let mut each_once = true;
+                let mut i = 0;
+                while i < d {
+                    if c.asked[i] != 1 {
+                        each_once = false;
+                    }
+                    i += 1;
                 }
-                i += 1;
+                chk!(src, each_once, "every coordinate is refreshed exactly once");
+                chk!(src, c.given_len_ok && c.given_ok, "each request passes the current state with all earlier answers already written");
+                let mut fin_ok = chain.current_state.len() == d;
+                let mut i = 0;
+                while i < d && fin_ok {
+                    if !<$S as BitEq>::biteq(chain.current_state[i], c.model[i]) {
+                        fin_ok = false;
+                    }
+                    i += 1;
+                }
+                chk!(src, fin_ok, "the final state holds each answer at its coordinate and nothing else changed");
+                chk!(src, chain.current_state().len() == d, "current_state reports the new state");
+                sweep += 1;
             }
-            chk!(src, fin_ok, "the final state holds each answer at its coordinate and nothing else changed");
-            chk!(src, chain.current_state().len() == d, "current_state reports the new state");
             cov!(src, d == $dmax, "largest dimension");
             cov!(src, d == 1, "dimension 1");
             cov!(src, true, "end reached");
